@@ -36,7 +36,7 @@ Next == cs.vc = "" /\ cs' \in {c \in Cases : c.vc \in VClassesFor(c.t)}
 (* design-level sanity: a shape is balanced (every list/map is closed)      *)
 RECURSIVE Bal(_, _)
 Bal(s, d) == IF s = <<>> THEN d = 0
-             ELSE IF Head(s) \in {"list", "map"} THEN Bal(Tail(s), d + 1)
+             ELSE IF Head(s) \in {"list", "map", "node", "edge"} THEN Bal(Tail(s), d + 1)
              ELSE IF Head(s) = "end" THEN d > 0 /\ Bal(Tail(s), d - 1)
              ELSE Bal(Tail(s), d)
 Balanced == cs.vc # "" => Bal(Shape(cs.t, cs.vc), 0)
